@@ -1220,9 +1220,35 @@ def _predicate_returns(tree) -> int:
     return count
 
 
+class _BoolOfTest(ast.NodeTransformer):
+    """``bool(a > b)`` / ``bool(not x)`` is the comparison / negation itself (they answer
+    with a bool already); ``bool`` must be the builtin"""
+
+    def __init__(self):
+        self.count = 0
+
+    def visit_Call(self, node):
+        node = self.generic_visit(node)
+        if isinstance(node.func, ast.Name) and node.func.id == 'bool' and \
+                len(node.args) == 1 and not node.keywords:
+            inner = node.args[0]
+            if isinstance(inner, ast.Compare) and all(
+                    isinstance(op, (ast.Lt, ast.LtE, ast.Gt, ast.GtE, ast.Is, ast.IsNot,
+                                    ast.In, ast.NotIn)) for op in inner.ops) or \
+                    isinstance(inner, ast.UnaryOp) and isinstance(inner.op, ast.Not):
+                self.count += 1
+                return inner
+        return node
+
+
 def desugar(tree):
     """normalise ``tree`` in place; returns the number of rewrites"""
     count = 0
+    if not any(isinstance(n, ast.Name) and n.id == 'bool' and isinstance(n.ctx, ast.Store)
+               for n in ast.walk(tree)):
+        unwrap = _BoolOfTest()
+        unwrap.visit(tree)
+        count += unwrap.count
     count += _predicate_returns(tree)
     functions, modules, shadowed, filterfalse = _operator_imports(tree)
     mapper = _MapToGenerator(functions, modules, shadowed, filterfalse)
